@@ -174,6 +174,8 @@ static void *loop(void *) {
     if (line.empty()) continue;
     auto f = split(line, ' ');
     std::string res;
+    // watchdog: a hang in the real code kills the process (SIGALRM); the runner reports `fault hang` and restarts
+    alarm((f[0] == "run" || f[0] == "acc") ? 150 : 10);
     if ((f[0] == "run" || f[0] == "acc") && f.size() >= 5) {
       cleanDir(); unlink("a.bin");
       std::string src = unhex(f[1]), input = unhex(f[2]);
